@@ -197,6 +197,32 @@ def c11_cases(tier):
         yield case, oracle
 
 
+def c10_cases(tier):
+    """every schema value maps to its own variant and back to exactly that name; anything else goes to Other"""
+    sets = [["where", "A", "b_c", "match"], ["type", "Plain"], ["X"]] if tier == "quick" else \
+        [["where", "A", "b_c", "match"], ["type", "Plain"], ["X"], ["async", "await", "dyn", "try", "loop"], ["in", "fn", "struct", "crate", "enum", "extern"]]
+    for vals in sets:
+        for nz in ("none", "rust"):
+            case = {"schema": "enum E { %s } type Query { e: E }" % " ".join(vals), "query": "query Q { e }", "options": {"mode": "cli", "normalization": nz}}
+
+            def oracle(res, vals=vals, nz=nz):
+                if res["exit"] != 0 or not res["out"] or not res["out"].get("ok"):
+                    return "generation failed for enum values %s (normalization %s): %s" % (vals, nz, (res.get("stderr") or str(res["out"]))[-200:])
+                t = norm(res["out"]["tokens"])
+                ser = re.findall(r'E::([A-Za-z0-9_#]+)=>"([^"]*)"', t)
+                de = re.findall(r'"([^"]*)"=>Ok\(E::([A-Za-z0-9_#]+)\)', t)
+                if sorted(w for (_, w) in ser) != sorted(vals):
+                    return "Serialize writes %s for the schema values %s" % (sorted(w for (_, w) in ser), sorted(vals))
+                if sorted(w for (w, _) in de) != sorted(vals):
+                    return "Deserialize recognises %s, the schema values are %s" % (sorted(w for (w, _) in de), sorted(vals))
+                if dict((w, v) for (v, w) in ser) != dict(de):
+                    return "the variant a value deserializes to does not serialize back to that value"
+                if len(set(v for (v, _) in ser)) != len(vals):
+                    return "two schema values share one variant"
+                return None
+            yield case, oracle
+
+
 def c08_cases(tier):
     os.makedirs(os.path.join(WORK, "replay-files"), exist_ok=True)
     d = os.path.join(WORK, "replay-files")
@@ -308,7 +334,7 @@ def c15_cases(tier):
             yield case, oracle
 
 
-FAMILIES = {"C15": c15_cases, "C13": c13_cases, "C03": c13_cases, "C14": c14_cases, "C16": c16_cases, "C17": c17_cases, "C11": c11_cases, "C08": c08_cases}
+FAMILIES = {"C15": c15_cases, "C13": c13_cases, "C03": c13_cases, "C14": c14_cases, "C16": c16_cases, "C17": c17_cases, "C11": c11_cases, "C08": c08_cases, "C10": c10_cases}
 
 
 def search_witness(pid, obligation, tier):
